@@ -170,6 +170,9 @@ def program_strategy():
     return st.one_of(for_target('request', request_strategy(ids)), for_target('response', response_strategy(ids)))
 
 
+# codes for the late-definition histories: one nobody has a class for, one of the library's, one of the application's
+LATE_CODES = {'fresh': 2960, 'builtin': -32000, 'application': 2002}
+
 ERROR_CLS = ['JsonRpcError', 'JsonRpcError', 'PlainBase', 'IndepBase', 'CodedBase']
 
 
@@ -190,7 +193,8 @@ class C05(Check):
         "null/absent data, empty params, code 0, empty message, id 0 or ''), or a batch of >= 2; distinct = distinct case spec. "
         "batch_program cases: ONE BatchRequest / BatchResponse object taken through a history of append / extend / serialise (three encoders) / "
         "read steps; at every serialisation and at the end the wire form must be the reference form of exactly the elements added so far "
-        "(non-trivial = the batch grew after it had been serialised)."
+        "(non-trivial = the batch grew after it had been serialised). late_class cases: a code is deserialised, then a class is defined for it "
+        "(a fresh code, one of the library's, one of the application's), then it is deserialised again - the class registered by then is the result (the registry is restored afterwards)."
     )
     assumptions = [
         "constructor arguments are within the documented types (ids: str | int | None; params: list | tuple | dict | None)",
@@ -201,7 +205,7 @@ class C05(Check):
     required_classes = ['request', 'response/result', 'response/error', 'error', 'batch_request', 'batch_response', 'batch_error',
                         'error_cls/PlainBase', 'error_cls/IndepBase', 'error_cls/CodedBase', 'edge/null-result', 'edge/absent-data', 'edge/null-data',
                         'edge/empty-params', 'edge/code-0', 'edge/empty-message', 'batch_request/empty', 'batch_program/request', 'batch_program/response',
-                        'batch_program/grown-after-serialisation', 'batch_program/not-strict']
+                        'batch_program/grown-after-serialisation', 'batch_program/not-strict', 'late-class']
 
     def strategy(self, tier: str):
         ecls = st.sampled_from(ERROR_CLS)
@@ -214,6 +218,8 @@ class C05(Check):
                       st.lists(response_strategy(st.one_of(st.integers(0, 6), jg.valid_ids())), max_size=5), ecls),
             st.builds(lambda e, c: {'kind': 'batch_error', 'error': e, 'error_cls': c}, error_strategy(), ecls),
             program_strategy(),
+            st.builds(lambda k, p: {'kind': 'late_class', 'code_kind': k, 'paths': p}, st.sampled_from(sorted(LATE_CODES)),
+                      st.lists(st.sampled_from(['error', 'response', 'batch']), min_size=1, max_size=3, unique=True)),
         )
 
     def corpus(self):
@@ -228,6 +234,9 @@ class C05(Check):
             {'kind': 'response', 'response': {'id': 1, 'error': {'cls': 'Custom2005', 'code': None, 'message': None, 'data': {'absent': True}}}, 'error_cls': 'PlainBase'},
             {'kind': 'error', 'error': {'cls': 'JsonRpcError', 'code': 4242, 'message': 'm', 'data': {'absent': True}}, 'error_cls': 'CodedBase'},
             {'kind': 'batch_response', 'responses': [{'id': 1, 'error': {'cls': 'JsonRpcError', 'code': 4242, 'message': 'm', 'data': {'value': 1}}}], 'error_cls': 'CodedBase'},
+            {'kind': 'late_class', 'code_kind': 'fresh', 'paths': ['error', 'response', 'batch']},
+            {'kind': 'late_class', 'code_kind': 'builtin', 'paths': ['response']},
+            {'kind': 'late_class', 'code_kind': 'application', 'paths': ['batch', 'error']},
             {'kind': 'batch_request', 'requests': []},
             {'kind': 'batch_response', 'responses': [{'id': 1, 'error': {'cls': 'JsonRpcError', 'code': 12345, 'message': 'm', 'data': {'absent': True}}}], 'error_cls': 'PlainBase'},
             {'kind': 'batch_response', 'responses': [{'id': 1, 'error': {'cls': 'IndepA', 'code': None, 'message': None, 'data': {'absent': True}}}], 'error_cls': 'IndepBase'},
@@ -299,10 +308,46 @@ class C05(Check):
             classes.append('batch_program/grown-after-serialisation')
         return Outcome(discs, serialised_before_growth, classes)
 
+    def run_late_class(self, spec: Any) -> Outcome:
+        """an error code is deserialised, THEN the application defines a class for that code (a module imported later, a class
+        overriding an earlier one), then the code is deserialised again: the class registered at that moment is the one to get"""
+        from pjrpc.common.exceptions import JsonRpcErrorMeta
+        code = LATE_CODES[spec['code_kind']]
+        wire = {'code': code, 'message': 'm', 'data': {'x': 1}}
+        body = {'jsonrpc': '2.0', 'id': 1, 'error': wire}
+        before = JsonRpcErrorMeta.__errors_mapping__.get(code)
+        discs: List[Disc] = []
+
+        def cls_of(how: str) -> Any:
+            if how == 'error':
+                return type(JsonRpcError.from_json(dict(wire)))
+            if how == 'response':
+                return type(pjrpc.Response.from_json(dict(body)).error)
+            return type(pjrpc.BatchResponse.from_json([dict(body)])[0].error)
+        try:
+            first = [cls_of(h) for h in spec['paths']]
+            want_first = before or JsonRpcError
+            if any(c is not want_first for c in first):
+                discs.append(Disc("C05/late-class/before-definition", f"{[c.__name__ for c in first]} expected {want_first.__name__} for code {code}"))
+            late = type('LateClass', (before or JsonRpcError,), {'code': code, 'message': 'late'})
+            second = [cls_of(h) for h in spec['paths']]
+            if any(c is not late for c in second):
+                discs.append(Disc("C05/late-class/class-registered-later-not-used",
+                                  f"code {code} ({spec['code_kind']}) deserialised to {[c.__name__ for c in second]} after class LateClass was registered for it "
+                                  f"(paths {spec['paths']})"))
+        finally:
+            if before is None:
+                JsonRpcErrorMeta.__errors_mapping__.pop(code, None)
+            else:
+                JsonRpcErrorMeta.__errors_mapping__[code] = before
+        return Outcome(discs, True, ['late-class', f"late-class/{spec['code_kind']}"])
+
     def run_case(self, spec: Any) -> Outcome:
         kind = spec['kind']
         if kind == 'batch_program':
             return self.run_program(spec)
+        if kind == 'late_class':
+            return self.run_late_class(spec)
         ecn = spec.get('error_cls', 'JsonRpcError')
         ecls = he.BY_NAME[ecn]
         classes = [kind if kind != 'response' else ('response/error' if 'error' in spec['response'] else 'response/result')]
